@@ -63,7 +63,7 @@ Run(st, f, level, n) ==
       LET ly == st.layers[level]
           t == ly.s
       IN IF t = "retry"
-           THEN RetryLoop(st, f, level, n, 1, ly.a)
+           THEN RetryLoop(st, f, level, n, 1, IF ly.c = 7 THEN 1 ELSE ly.a)   \* c = 7: the policy raises -> no retry
            ELSE LET below == Run(st, f, level - 1, n)
                     r == below[1]
                     fn == ly.xs[1]
